@@ -183,6 +183,7 @@ def run(ctx):
     vlib.proof_step(ctx)
     import dpcmtie
     dpcmtie.run(ctx, 3000 if q else 60000)
+    dpcmtie.run_sds(ctx, 60 if q else 3000)
     script, plan, dist = gen(ctx, q)
     ctx.distribution.update(dist)
     # model side: for the sample-granular encodings the model predicts the stored codes of every written file
@@ -223,5 +224,5 @@ def run(ctx):
             "full-range noise with the low bits the encoding cannot hold cleared, extremes, arbitrary finite float / double bit patterns incl. subnormals")
     ctx.add_samples([hl[ln][2][:200] for (ln, k, a) in plan[:400:80] if ln in hl])
     ctx.trusted += ["PcmConv.v / Endian.v (tied by C02 / C20 and the stored-codes correspondence of this run)",
-                    "Stream.v: the block writers / readers of sds.c, paf.c, alac.c, dwvw.c are abstract (enc, dec with dec (enc b) = b); their concrete codecs "
+                    "Stream.v: the block structure of sds.c, paf.c, alac.c, dwvw.c is abstract (the SDS sample packing itself is concrete in Sds.v): block writers / readers are (enc, dec with dec (enc b) = b); their concrete codecs "
                     "(ALAC compression, DWVW delta code) are decided by the round-trip oracle on the implementation, not by a theorem"]
